@@ -336,3 +336,157 @@ fn child_body<V: Val, S: StratExt<V>>(
     sh.results.lock().unwrap().push(res);
     let _ = quiescent_check::<V, S>;
 }
+
+/// Directed scenario "node re-claim under a writer" (third-round seed C11p: the cooldown check read
+/// the writer count before the node state). Scripted TOKEN schedule, fallback-only strategy,
+/// containers a and b, three threads:
+///
+///   first (fresh thread): adopts node N, starts a.load(), stops before reading the storage;
+///   newcomer (fresh thread): starts its first operation, walks the node list up to N and stops
+///     right before looking at N's state;
+///   writer: a.store(..): enters N, prepares a replacement for first's generation, stops before
+///     its hand-over exchange;
+///   first: finishes and exits (N goes into cooldown with the writer still inside);
+///   newcomer: goes on - it must not get N - and starts b.load(), stops before reading the storage;
+///   writer: finishes; newcomer: finishes - its load must return b's value.
+///
+/// Oracles: histories per container (a value of a must not come out of b), ledger, node invariants.
+pub fn run_reclaim_under_writer<V: Val, S: StratExt<V>>(p: &Profile, exec_no: u64) -> ExecOut
+where
+    Guard<V, S>: Send,
+{
+    use arc_swap::verif::Site;
+    use crate::wl_core::{FORCE_CONT, W};
+    let nt = 3;
+    let viol_before = crate::viol::count();
+    let mut init_ids = Vec::new();
+    let mut addr_of: HashMap<u64, u64> = HashMap::new();
+    let mut conts: Vec<Cont<V, S>> = Vec::new();
+    for _ in 0..2 {
+        let v = V::fresh(crate::wl_core::id_block() + 1);
+        init_ids.push(v.vid());
+        addr_of.insert(v.vid(), v.addr() as u64);
+        conts.push(Arc::new(ArcSwapAny::<V, S>::new(v)));
+    }
+    let sh = Arc::new(Shared::<V, S> {
+        clock: AtomicU64::new(1),
+        mailbox: Mutex::new(Vec::new()),
+        b1: HBarrier::new(nt - 1),
+        b2: HBarrier::new(nt - 1),
+        results: Mutex::new(Vec::new()),
+        fin: Mutex::new(Vec::new()),
+        q1_done: AtomicBool::new(false),
+        stop: AtomicBool::new(false),
+        profile: {
+            let mut p2 = p.clone();
+            p2.none_p = 0;
+            p2
+        },
+        exec_no,
+        step_budget: 100_000,
+    });
+    sched::token_prepare(nt, exec_no, Strat::Script, false);
+    // the rest of the script is appended by `first` once it knows where its node sits in the list
+    sched::set_script(vec![(0, hs::USER)]);
+    let desc = json!({"workload": "life/reclaim-under-writer", "value": V::NAME, "strategy": S::NAME, "exec_no": exec_no});
+    runner::set_current(desc.clone());
+    let same_node = Arc::new(AtomicBool::new(false));
+    let reached = Arc::new(AtomicBool::new(false));
+    let mut handles = Vec::new();
+    for t in 0..nt {
+        let conts2: Vec<Cont<V, S>> = conts.to_vec();
+        let sh2 = sh.clone();
+        let same_node = same_node.clone();
+        let reached = reached.clone();
+        handles.push(spawn_worker(t, 7000 + t as u64, move || {
+            let mut w = Worker::<V, S> {
+                t,
+                rng: Rng::new(23 + t as u64),
+                conts: conts2,
+                sh: sh2.clone(),
+                guards: Vec::new(),
+                owned: Vec::new(),
+                seen_addrs: Vec::new(),
+                next_id: crate::wl_core::id_block(),
+                res: RefCell::new(WorkerResult { t, ..Default::default() }),
+                last_path: std::cell::Cell::new(0),
+                budgets: std::cell::Cell::new((100_000, 100_000)),
+                last_steps: std::cell::Cell::new(0),
+                caches: Vec::new(),
+                pending: RefCell::new(None),
+            };
+            match t {
+                0 => {
+                    FORCE_CONT.with(|f| f.set(Some(0)));
+                    // adopt a node (a load on the fallback-only strategy uses no fast slot)
+                    w.do_op(W::LoadDrop);
+                    let mine = arc_swap::verif::thread_node();
+                    let idx = arc_swap::verif::nodes().iter().position(|n| Some(n.addr) == mine).unwrap_or(0);
+                    let mut script = vec![(0usize, hs::USER), (0, Site::FALLBACK_LOAD as u16)];
+                    for _ in 0..=idx {
+                        script.push((1, Site::COOLDOWN_CHECK as u16));
+                    }
+                    script.push((2, Site::HELP_CTRL_CAS as u16));
+                    script.push((0, u16::MAX)); // first finishes and exits: its node goes into cooldown
+                    // the newcomer's second load uses the generation of first's second load
+                    script.push((1, Site::FALLBACK_LOAD as u16));
+                    script.push((1, Site::FALLBACK_LOAD as u16));
+                    script.push((2, hs::USER));
+                    script.push((1, hs::USER));
+                    sched::set_script(script);
+                    N_OF_FIRST.store(mine.unwrap_or(0), SeqCst);
+                    sched::step(hs::USER);
+                    w.do_op(W::LoadDrop);
+                    // exits without taking part in the end phase
+                    w.conts.clear();
+                    let res = w.res.into_inner();
+                    sh2.results.lock().unwrap().push(res);
+                    return;
+                }
+                1 => {
+                    FORCE_CONT.with(|f| f.set(Some(1)));
+                    w.do_op(W::LoadDrop);
+                    same_node.store(arc_swap::verif::thread_node() == Some(N_OF_FIRST.load(SeqCst)), SeqCst);
+                    w.do_op(W::LoadDrop);
+                    reached.store(true, SeqCst);
+                    sched::step(hs::USER);
+                }
+                _ => {
+                    FORCE_CONT.with(|f| f.set(Some(0)));
+                    w.do_op(W::Store);
+                    sched::step(hs::USER);
+                }
+            }
+            FORCE_CONT.with(|f| f.set(None));
+            // the quiescent checks must not overlap with the exit of `first`
+            while sched::status(0) != sched::ST_FINISHED {
+                sched::yield_blocked();
+            }
+            sched::unblocked();
+            end_phase(w, &sh2);
+        }));
+    }
+    drop(conts);
+    sched::token_start();
+    let mut all_ok = true;
+    for h in handles {
+        if !matches!(h.join(), Ok(true)) {
+            all_ok = false;
+        }
+    }
+    if sched::script_completed() {
+        runner::count("life.reclaim.script_completed", 1);
+    } else {
+        runner::count("life.reclaim.script_not_completed", 1);
+    }
+    if same_node.load(SeqCst) {
+        // informational: what that leads to is judged by the histories (same generation, stale hand-over accepted)
+        runner::count("life.reclaim.node_adopted_with_writer_inside", 1);
+    }
+    let _ = reached;
+    let inn = unsafe { sched::inner() };
+    let (trace_hash, steps) = (inn.trace_hash, inn.nsteps);
+    analyze::<V, S>(p, &desc, &sh, all_ok, init_ids, addr_of, nt, 2, Mode::Token, false, viol_before, trace_hash, steps)
+}
+
+static N_OF_FIRST: std::sync::atomic::AtomicUsize = std::sync::atomic::AtomicUsize::new(0);
